@@ -17,8 +17,14 @@ ENVELOPE = 16.0
 
 def gen_nodes(rng):
     m = rng.randint(2, 14)
-    kind = rng.choice(['uniform', 'random', 'clustered', 'permuted', 'onesided', 'dyadic'])
-    if kind == 'uniform':
+    kind = rng.choice(['uniform', 'random', 'clustered', 'permuted', 'onesided', 'dyadic', 'almost-uniform'])
+    if kind == 'almost-uniform':
+        h = rng.choice([1.0, 0.5, 0.1, 1e-3, 1e-7])
+        rel = 10.0 ** rng.uniform(-9, -3)
+        c = rng.uniform(-5, 5)
+        m = rng.choice([3, 5, 7, 9, m])
+        xs = [c + h * ((i - m // 2) + rel * rng.uniform(-1, 1)) for i in range(m)]
+    elif kind == 'uniform':
         h = rng.choice([1.0, 0.5, 0.1, 1e-3, 2.0 ** -rng.randint(0, 12)])
         c = rng.uniform(-5, 5)
         xs = [c + h * (i - m // 2) for i in range(m)]
